@@ -13,6 +13,9 @@ pub struct Stats {
 	pub frozen: bool,
 	pub evaluations: u64,
 	pub nontrivial: HashSet<u64>,
+	/// distinct non-trivial cases counted by construction (enumerated domains) or by a
+	/// conservative bitmap, in addition to the fingerprint set
+	pub nontrivial_extra: u64,
 	pub classes: BTreeMap<String, u64>,
 	pub excluded: BTreeMap<String, u64>,
 	pub samples: Vec<Value>,
@@ -90,6 +93,7 @@ impl Stats {
 	pub fn merge(&mut self, o: Stats) {
 		self.evaluations += o.evaluations;
 		self.nontrivial.extend(o.nontrivial);
+		self.nontrivial_extra += o.nontrivial_extra;
 		for (k, v) in o.classes {
 			*self.classes.entry(k).or_insert(0) += v;
 		}
@@ -172,7 +176,7 @@ pub struct EvidenceMeta<'a> {
 pub fn write_evidence(meta: &EvidenceMeta, stats: &Stats) -> std::io::Result<PathBuf> {
 	let mut coverage = serde_json::Map::new();
 	coverage.insert("evaluations".into(), json!(stats.evaluations));
-	coverage.insert("distinct_nontrivial".into(), json!(stats.nontrivial.len()));
+	coverage.insert("distinct_nontrivial".into(), json!(stats.nontrivial.len() as u64 + stats.nontrivial_extra));
 	coverage.insert("rule".into(), json!(meta.rule));
 	coverage.insert("samples".into(), Value::Array(stats.samples.clone()));
 	coverage.insert("classes".into(), json!(stats.classes));
